@@ -16,7 +16,7 @@
    External behaviour is a parameter, never an axiom: time.ParseDuration ([parse_dur]),
    time.Duration.String ([dur_string]) and filepath.Join ([join]) are Section variables; the
    harness supplies their actual values (computed by the Go standard library, outside mage). *)
-From Mage Require Import Base.Strs.
+From Mage Require Export Base.Strs Model.FlagPkg.   (* strconv.ParseBool, Go's flag package *)
 
 Definition env := list (string * string).
 
@@ -59,13 +59,6 @@ Fixpoint setenv (k v : string) (e : env) : env :=
   | (k', v') :: r => if String.eqb k k' then (k, v) :: remove_key k r else (k', v') :: setenv k v r
   end.
 
-(* strconv.ParseBool *)
-Definition in_strs (s : string) (l : list string) : bool := existsb (String.eqb s) l.
-Definition parse_bool (s : string) : option bool :=
-  if in_strs s ["1"; "t"; "T"; "true"; "TRUE"; "True"] then Some true
-  else if in_strs s ["0"; "f"; "F"; "false"; "FALSE"; "False"] then Some false
-  else None.
-
 Definition VERBOSE := "MAGEFILE_VERBOSE".
 Definition DEBUG := "MAGEFILE_DEBUG".
 Definition GOCMD := "MAGEFILE_GOCMD".
@@ -89,6 +82,11 @@ Record flags := {                  (* of the front end `mage` *)
   f_v : option bool; f_debug : option bool; f_l : option bool; f_h : option bool;
   f_t : option Z;                  (* nanoseconds *)
   f_gocmd : option string; f_d : option string; f_w : option string }.
+
+(* the assignments the flag package made on mage's command line, as that record (main.go:189-204) *)
+Definition flags_of (a : assigns) : flags :=
+  {| f_v := get_bool "v" a; f_debug := get_bool "debug" a; f_l := get_bool "l" a; f_h := get_bool "h" a;
+     f_t := get_dur "t" a; f_gocmd := get_str "gocmd" a; f_d := get_str "d" a; f_w := get_str "w" a |}.
 
 Record invocation := {
   i_debug : bool; i_dir : string; i_workdir : string; i_verbose : bool; i_list : bool; i_help : bool;
@@ -180,6 +178,10 @@ Definition tpl_parse_duration (k : string) (e : env) : Z :=
 Record cflags := { c_v : option bool; c_l : option bool; c_h : option bool; c_t : option Z }.
 Definition no_cflags : cflags := {| c_v := None; c_l := None; c_h := None; c_t := None |}.
 
+(* the assignments the flag package made on the compiled program's command line (template.go:70-73) *)
+Definition cflags_of_assigns (a : assigns) : cflags :=
+  {| c_v := get_bool "v" a; c_l := get_bool "l" a; c_h := get_bool "h" a; c_t := get_dur "t" a |}.
+
 Record arguments := { a_verbose : bool; a_list : bool; a_help : bool; a_timeout : Z }.
 
 Definition gm_parse (cf : cflags) (e : env) : arguments :=
@@ -209,13 +211,16 @@ Definition front_end (fixed : bool) (lay : layout) (f : flags) (e : env) : invoc
   let inv := invoke lay (parse f e) in
   (inv, exec_env (run_compiled_env fixed inv e), run_compiled_dir inv).
 
-(* through mage: the child receives only the non-flag words *)
+(* through mage.  RunCompiled hands the compiled program inv.Args = fs.Args(): the words the front end's flag
+   parsing left over.  The flag package stops at the first word that does not look like a flag, so these begin with
+   a plain word - unless the front end consumed a "--": what follows it arrives verbatim and the generated main
+   parses it with ITS flag set.  [cf] = the compiled program's own flags (no_cflags when it got none). *)
 Definition child_env (fixed : bool) (lay : layout) (f : flags) (e : env) : env :=
   snd (fst (front_end fixed lay f e)).
-Definition mage_args (fixed : bool) (lay : layout) (f : flags) (e : env) : arguments :=
-  gm_parse no_cflags (child_env fixed lay f e).
-Definition mage_target_env (fixed : bool) (lay : layout) (f : flags) (e : env) : env :=
-  gm_target_env (mage_args fixed lay f e) (child_env fixed lay f e).
+Definition mage_args (fixed : bool) (lay : layout) (f : flags) (cf : cflags) (e : env) : arguments :=
+  gm_parse cf (child_env fixed lay f e).
+Definition mage_target_env (fixed : bool) (lay : layout) (f : flags) (cf : cflags) (e : env) : env :=
+  gm_target_env (mage_args fixed lay f cf e) (child_env fixed lay f e).
 Definition mage_cwd (lay : layout) (f : flags) (e : env) : string :=
   snd (front_end true lay f e).
 Definition mage_build_dir (lay : layout) (f : flags) (e : env) : string :=
@@ -224,5 +229,36 @@ Definition mage_build_dir (lay : layout) (f : flags) (e : env) : string :=
 (* the compiled binary started directly with its own flags in environment e *)
 Definition bin_args (cf : cflags) (e : env) : arguments := gm_parse cf e.
 Definition bin_target_env (cf : cflags) (e : env) : env := gm_target_env (gm_parse cf e) e.
+
+(* ---- whole command lines *)
+Inductive outcome :=
+| Rejected (status : Z)        (* flag error: message + usage, os.Exit(2) (template.go:94-96; main.go:145-148) *)
+| UsageShown                   (* -help / --help: flag.ErrHelp, usage text, status 0 *)
+| Runs (a : arguments) (te : env) (words : list string).
+    (* the generated main goes on with arguments a; target code sees te; the dispatcher gets these words *)
+
+(* the compiled program started with these words in environment e *)
+Definition binary_cmdline (words : list string) (e : env) : outcome :=
+  match cl_parse parse_dur gen_spec words with
+  | PBad _ => Rejected 2
+  | PHelp => UsageShown
+  | POk a rest => let args := gm_parse (cflags_of_assigns a) e in Runs args (gm_target_env args e) rest
+  end.
+
+(* mage started with these words, for command lines that select no command (-version, -init, -clean, -compile)
+   and are no misuse of -h / -goos (those rules, Parse main.go:253-306, are C05's Model/ExitChain.v) *)
+Definition mage_cmdline (fixed : bool) (lay : layout) (words : list string) (e : env) : outcome :=
+  match cl_parse parse_dur front_spec words with
+  | PBad _ => Rejected 2
+  | PHelp => UsageShown
+  | POk a rest =>
+      if flag_or (get_bool "h" a) false && match rest with [] => true | _ => false end then UsageShown   (* main.go:253-257 *)
+      else binary_cmdline rest (child_env fixed lay (flags_of a) e)
+  end.
+
+(* where the target runs / which directory is built, from the words *)
+Definition mage_cmdline_dirs (lay : layout) (words : list string) (e : env) : string * string :=
+  let f := flags_of (match cl_parse parse_dur front_spec words with POk a _ => a | PBad a => a | PHelp => [] end) in
+  (mage_cwd lay f e, mage_build_dir lay f e).
 
 End Ext.
